@@ -1,7 +1,9 @@
 package netty
 
 import (
+	"bytes"
 	"context"
+	"io"
 
 	"github.com/go-netty/go-netty/internal/vrt"
 )
@@ -280,4 +282,191 @@ func ZZ_C10_Recycle(q, first, second, entry int) {
 	}
 	vrt.Assert(tr.unflushed == 0 && len(ch.writeQueue) == 0, "c10-everything-sent")
 	vrt.Reach("c10-recycle-done")
+}
+
+// ZZ_C01_Ctx: the context-taking entry points (2 CtxWrite1, 3 CtxWritev, 6 single-element CtxWritev) with a
+// context that ends before the call (mode 0) or concurrently with it (mode 1), on a queue that has room: whichever
+// way the call goes, a call that reports an error reports zero bytes and contributes nothing to the wire, and a
+// call that reports success is transmitted whole.
+func ZZ_C01_Ctx(q, until, entry, mode int) {
+	tr := newZZTransport()
+	pl := NewPipeline()
+	ch := zzNewChannel(pl, tr, q, until != 0)
+	g := &zzGhost{n: 2, content: "c01"}
+	tr.onWrite = func(p []byte) {}
+	ctx, cancel := context.WithCancel(context.Background())
+	if mode == 0 {
+		cancel()
+	} else {
+		vrt.Go("canceller", func() { cancel() })
+	}
+	vrt.Go("w0", func() {
+		for id := 0; id < 2; id++ {
+			size := 1 + id%2
+			p := zzPayload(id, size)
+			g.invoke(id, p)
+			n, err := zzCall(ch, entry, ctx, p)
+			g.ret(id, n, err)
+			if err == nil {
+				vrt.Assert(n == int64(size), "c01-accepted-write-reports-full-length")
+				vrt.Reach("c01-ctx-call-accepted")
+			} else {
+				vrt.Assert(n == 0, "c01-failed-write-reports-zero")
+				vrt.Assert(err == context.Canceled || (q > 0 && until == 0 && err == ErrAsyncNoSpace), "c01-ctx-call-fails-only-with-the-context-error")
+				vrt.Reach("c01-ctx-call-failed")
+			}
+			for i := range p {
+				p[i] = 0xEE
+			}
+		}
+	})
+	dead := vrt.Quiesce()
+	vrt.Assert(!dead, "c02-no-thread-left-blocked")
+	g.checkLog(tr.log, true)
+	vrt.Assert(tr.unflushed == 0, "c02-flushed-after-last-byte")
+	vrt.Assert(tr.closes == 0 && ch.IsActive(), "c01-channel-stays-open")
+	vrt.Reach("c01-ctx-done")
+}
+
+// zzCallR is zzCall plus the streaming entry point: 8 ReadFrom(*bytes.Reader), 9 ReadFrom(plain reader).
+func zzCallR(ch *channel, entry int, ctx context.Context, p []byte) (int64, error) {
+	switch entry {
+	case 8:
+		return ch.ReadFrom(bytes.NewReader(p))
+	case 9:
+		return ch.ReadFrom(&zzFragReader{data: p})
+	}
+	return zzCall(ch, entry, ctx, p)
+}
+
+// ZZ_C10_FailThenRecycle: recycling after a refused call, sequentially (manual executor): the non-blocking queue
+// is filled behind a sender that has not started, one more call through `entry` is refused (kind 0: queue full;
+// kind 1: additionally with a context that has ended), the sender then drains and recycles, and two more payloads
+// are accepted and sent. Every accepted payload arrives intact and in order, the refused one never, and no buffer
+// is handed to the pool twice (with the precise pool model two later payloads would then share memory).
+func ZZ_C10_FailThenRecycle(q, entry, kind int) {
+	tr := newZZTransport()
+	pl := NewPipeline()
+	ex := &zzManualExecutor{}
+	ch := newChannelWith(context.Background(), pl, tr, ex, 1, q, false).(*channel)
+	pl.(*pipeline).channel = ch
+	var want []byte
+	id := 0
+	accept := func(e int) {
+		p := zzPayload(id, 2+id%2)
+		id++
+		want = append(want, p...)
+		n, err := zzCallR(ch, e, context.Background(), p)
+		vrt.Assert(err == nil && n == int64(len(p)), "c10-accepted")
+		for i := range p {
+			p[i] = 0xEE
+		}
+	}
+	for k := 0; k < q; k++ {
+		accept(k % 2)
+	}
+	ctx, cancel := context.WithCancel(context.Background())
+	if kind == 1 {
+		cancel()
+	}
+	p := zzPayload(id, 2)
+	id++
+	_, err := zzCallR(ch, entry, ctx, p)
+	vrt.Assert(err != nil, "c18-full-queue-refuses")
+	for i := range p {
+		p[i] = 0xEE
+	}
+	ex.runAll()
+	accept(0)
+	accept(5)
+	ex.runAll()
+	vrt.Assert(len(tr.log) == len(want), "c10-payload-whole")
+	for i := range want {
+		if i < len(tr.log) {
+			vrt.Assert(tr.log[i] == want[i], "c10-payload-unmodified")
+		}
+	}
+	vrt.Assert(tr.unflushed == 0 && len(ch.writeQueue) == 0, "c10-everything-sent")
+	cancel()
+	vrt.Reach("c10-fail-recycle-done")
+}
+
+// zzUnitReader hands out `units` two-byte units [0xA0+i, symbolic], one per Read call (each becomes one chunk of
+// the streaming entry point).
+type zzUnitReader struct {
+	units int
+	i     int
+	body  [4]byte
+}
+
+func (r *zzUnitReader) Read(p []byte) (int, error) {
+	if r.i >= r.units {
+		return 0, io.EOF
+	}
+	p[0] = byte(0xA0 + r.i)
+	p[1] = r.body[r.i]
+	r.i++
+	return 2, nil
+}
+
+// ZZ_C10_ReadFrom: the streaming entry point (Channel.ReadFrom, used by the head handler for io.Reader messages)
+// copies each chunk into a pooled buffer and queues it: with pooled buffers havocked the moment they are Put back
+// (and a second writer using Write1 with a scribbling caller), every chunk and every payload must reach the
+// transport intact, the reader's chunks in their order. Chunk boundaries / interleaving with the other writer are
+// not asserted here (C09's subject).
+func ZZ_C10_ReadFrom(q, until, units, other int) {
+	tr := newZZTransport()
+	pl := NewPipeline()
+	ch := zzNewChannel(pl, tr, q, until != 0)
+	rd := &zzUnitReader{units: units}
+	for i := 0; i < units; i++ {
+		rd.body[i] = vrt.Byte()
+	}
+	var rn int64
+	var rerr error
+	vrt.Go("reader-writer", func() { rn, rerr = ch.ReadFrom(rd) })
+	var ob byte
+	oerrs := 0
+	if other != 0 {
+		ob = vrt.Byte()
+		vrt.Go("w1", func() {
+			p := []byte{0xB0, ob}
+			_, err := ch.Write1(p)
+			if err != nil {
+				oerrs++
+			}
+			p[0], p[1] = 0xEE, 0xEE
+		})
+	}
+	dead := vrt.Quiesce()
+	vrt.Assert(!dead, "c02-no-thread-left-blocked")
+	if rerr != nil || oerrs > 0 {
+		vrt.Assert(q > 0 && until == 0, "c18-only-queue-full-fails-on-open-channel")
+		vrt.Reach("c10-readfrom-refused")
+		return
+	}
+	vrt.Assert(rn == int64(2*units), "c10-readfrom-reports-all-bytes")
+	want := 2 * units
+	if other != 0 {
+		want += 2
+	}
+	vrt.Assert(len(tr.log) == want, "c10-payload-whole")
+	next := 0
+	seenOther := false
+	for i := 0; i+1 < len(tr.log); i += 2 {
+		tag := tr.log[i]
+		if tag == 0xB0 {
+			vrt.Assert(other != 0 && !seenOther, "c10-payload-unmodified")
+			seenOther = true
+			vrt.Assert(tr.log[i+1] == ob, "c10-payload-unmodified")
+			continue
+		}
+		vrt.Assert(next < units && tag == byte(0xA0+next), "c10-payload-unmodified")
+		if next < units {
+			vrt.Assert(tr.log[i+1] == rd.body[next], "c10-payload-unmodified")
+		}
+		next++
+	}
+	vrt.Assert(tr.unflushed == 0, "c02-flushed-after-last-byte")
+	vrt.Reach("c10-readfrom-done")
 }
